@@ -764,8 +764,7 @@ pub fn ab_contract(v: i16, alpha: i16, beta: i16, r: i16) -> bool {
 
 // ---------------------------------------------------------------------------------------------
 // Strict FEN reader (the well-formedness the properties refer to): 4 to 6 fields; 8 ranks of
-// exactly 8 files; digits 1-8; side `w` or `b`; castling `-` or a non-empty subset of KQkq in
-// that order without repeats; e.p. `-` or a file letter followed by 6 (White to move) or 3
+// exactly 8 files; digits 1-8; side `w` or `b`; castling: a non-empty combination of the letters K Q k q and `-`; e.p. `-` or a file letter followed by 6 (White to move) or 3
 // (Black to move); optional half-move and full-move counters made of digits.
 // Fields are separated by single ASCII whitespace runs; leading/trailing whitespace ignored.
 // ---------------------------------------------------------------------------------------------
@@ -882,27 +881,21 @@ pub fn parse_fen(text: &[u8]) -> Option<Pos> {
     let white_to_move = side[0] == b'w';
     let cf = &text[s[2]..e[2]];
     let mut castle = [false; 4];
-    if !(cf.len() == 1 && cf[0] == b'-') {
-        if cf.is_empty() || cf.len() > 4 {
-            return None;
-        }
-        let order = [b'K', b'Q', b'k', b'q'];
-        let mut next = 0;
+    // lenient on purpose: any non-empty combination of the letters K Q k q and `-` (order and
+    // repeats are not judged); the rights are the letters present
+    if cf.is_empty() {
+        return None;
+    }
+    {
         let mut i = 0;
         while i < cf.len() {
-            let mut found = false;
-            let mut k = next;
-            while k < 4 {
-                if cf[i] == order[k] {
-                    castle[k] = true;
-                    next = k + 1;
-                    found = true;
-                    break;
-                }
-                k += 1;
-            }
-            if !found {
-                return None;
+            match cf[i] {
+                b'K' => castle[0] = true,
+                b'Q' => castle[1] = true,
+                b'k' => castle[2] = true,
+                b'q' => castle[3] = true,
+                b'-' => {}
+                _ => return None,
             }
             i += 1;
         }
